@@ -272,4 +272,90 @@ theorem visCount_reached (cfg : Config S) (hdt : 0 ≤ cfg.dt) (P : NodeId → P
             visCount x (evSteps cfg P k (start0 cfg P)) + 1 := hcnt
         omega
 
+/-! ### event-level runs are the runs of `step_simulation` while no bound is hit -/
+
+theorem isDone_unbounded (cfg : Config S) (hd : cfg.duration = none) (hm : cfg.maxIter = none)
+    (w : World S σ) (hq : w.loop.queue ≠ []) : isDone cfg w = false := by
+  unfold isDone
+  cases h : w.loop.queue with
+  | nil => exact absurd h hq
+  | cons e rest => simp [hd, hm]
+
+theorem step_unbounded (cfg : Config S) (hd : cfg.duration = none) (hm : cfg.maxIter = none)
+    (P : NodeId → Proto S σ) (w : World S σ) (hf : w.finalized = false)
+    (hq : (prep cfg P w).loop.queue ≠ []) (hq' : (evStep cfg P (prep cfg P w)).loop.queue ≠ []) :
+    (step cfg P w).1 = evStep cfg P (prep cfg P w) := by
+  rw [step_eq cfg P w hf, if_neg (by rw [isDone_unbounded cfg hd hm _ hq]; simp)]
+  unfold evStep at hq' ⊢
+  cases h : (prep cfg P w).loop.queue with
+  | nil => exact absurd h hq
+  | cons e rest =>
+    rw [h] at hq'
+    simp only at hq' ⊢
+    rw [if_neg (by rw [isDone_unbounded cfg hd hm _ hq']; simp)]
+
+theorem init_flags (cfg : Config S) (P : NodeId → Proto S σ) :
+    (init cfg P).initialized = false ∧ (init cfg P).finalized = false := by
+  rw [init_eq]; split <;> exact ⟨rfl, rfl⟩
+
+theorem start0_flags (cfg : Config S) (P : NodeId → Proto S σ) :
+    (start0 cfg P).initialized = true ∧ (start0 cfg P).finalized = false := by
+  unfold start0 initialise
+  simp only
+  have e := (ext_logAll cfg Obs.handlerInit (by intro h n cb t e; cases e) cfg.handlers
+      { init cfg P with initialized := true }).trans
+    (ext_callbackAll cfg P .initialize (List.range cfg.nNodes) _)
+  exact ⟨e.init_eq, e.fin_eq.trans (init_flags cfg P).2⟩
+
+theorem execStep_flags (cfg : Config S) (hdt : 0 ≤ cfg.dt) (P : NodeId → Proto S σ)
+    (e : Ev (EvKind S)) (rest : List (Ev (EvKind S))) (w : World S σ) :
+    (execStep cfg P e rest w).initialized = w.initialized ∧
+      (execStep cfg P e rest w).finalized = w.finalized := by
+  rw [execStep_eq]
+  simp only
+  have e1 := (ext_execEv cfg hdt P e (popped e rest w)).trans
+    (ext_logAll cfg (fun h => Obs.afterStep h (execEv cfg P e (popped e rest w)).iter e.ts)
+      (by intro h n cb t e; cases e) cfg.handlers _)
+  exact ⟨e1.init_eq, e1.fin_eq⟩
+
+theorem evSteps_flags (cfg : Config S) (hdt : 0 ≤ cfg.dt) (P : NodeId → Proto S σ) (k : Nat) :
+    (evSteps cfg P k (start0 cfg P)).initialized = true ∧
+      (evSteps cfg P k (start0 cfg P)).finalized = false := by
+  induction k with
+  | zero => exact start0_flags cfg P
+  | succ k ih =>
+    show (evStep cfg P _).initialized = true ∧ (evStep cfg P _).finalized = false
+    unfold evStep
+    split
+    · exact ih
+    · rename_i e rest _
+      have := execStep_flags cfg hdt P e rest (evSteps cfg P k (start0 cfg P))
+      exact ⟨this.1.trans ih.1, this.2.trans ih.2⟩
+
+/-- with neither `duration` nor `max_iterations`, `k+1` calls of `step_simulation` on a freshly built
+    simulation are initialisation followed by `k+1` event-level steps, as long as the queue has not
+    run empty (at which point the real run finalises) -/
+theorem steps_eq_evSteps (cfg : Config S) (hdt : 0 ≤ cfg.dt) (hd : cfg.duration = none)
+    (hm : cfg.maxIter = none) (P : NodeId → Proto S σ) (k : Nat)
+    (hq : ∀ j, j ≤ k + 1 → (evSteps cfg P j (start0 cfg P)).loop.queue ≠ []) :
+    steps cfg P (k + 1) (init cfg P) = evSteps cfg P (k + 1) (start0 cfg P) := by
+  induction k with
+  | zero =>
+    show (step cfg P (init cfg P)).1 = evStep cfg P (start0 cfg P)
+    have hp : prep cfg P (init cfg P) = start0 cfg P := by
+      unfold prep; rw [(init_flags cfg P).1]; rfl
+    have := step_unbounded cfg hd hm P (init cfg P) (init_flags cfg P).2
+      (by rw [hp]; exact hq 0 (by omega)) (by rw [hp]; exact hq 1 (by omega))
+    rw [this, hp]
+  | succ k ih =>
+    have ih' := ih (fun j hj => hq j (by omega))
+    rw [steps_add cfg P (k + 1) 1, ih']
+    show (step cfg P (evSteps cfg P (k + 1) (start0 cfg P))).1 = evStep cfg P _
+    have hfl := evSteps_flags cfg hdt P (k + 1)
+    have hp : prep cfg P (evSteps cfg P (k + 1) (start0 cfg P)) = evSteps cfg P (k + 1) (start0 cfg P) := by
+      unfold prep; rw [hfl.1]; rfl
+    have := step_unbounded cfg hd hm P _ hfl.2
+      (by rw [hp]; exact hq (k + 1) (by omega)) (by rw [hp]; exact hq (k + 2) (by omega))
+    rw [this, hp]
+
 end Sim
